@@ -50,8 +50,9 @@ Definition rect (z : Q) (p : page) (r : Q * Q * Q * Q) : list Q :=
   let '(x1, y1, x2, y2) := r in
   let '(a, b) := point z p (x1, y1) in let '(c, d) := point z p (x2, y2) in [a; b; c; d].
 
-(* add_forms: font_size = style['font_size'] * 0.75 (radio: * 0.5) - the zoom does not appear *)
-Definition form_font_size (z : Q) (css_font_size : Q) : Q := css_font_size * (3 # 4).
+(* add_forms (since 4fa9d04): scale = matrix[0][0]; font_size = style['font_size'] * scale (radio: * scale / 1.5) *)
+Definition form_font_size (z : Q) (css_font_size : Q) : Q := css_font_size * scale z.
+Definition radio_font_size (z : Q) (css_font_size : Q) : Q := css_font_size * scale z / (3 # 2).
 
 (* ---- Document.copy(pages): a new Document with the given pages, the same metadata / fetcher / font configuration
    and an empty font table; write_pdf paints document.pages in order ---- *)
